@@ -111,6 +111,9 @@ func runConc(cs *Case, or concOracles) (w *World) {
 		}
 	}
 	st.stable = w.model.Live()
+	if cs.Cfg.Params["shared_keys"] == 1 {
+		w.noteTrigger("concurrent-key-insert")
+	}
 	st.setupModel = w.model.Clone()
 	w.hookFn = w.concHook
 	w.readyFn = func(c *column.Collection, p uint8, arg uint32) func() bool {
@@ -251,7 +254,7 @@ func (w *World) runConcTxn(t *Thread, prog *TxnProg) {
 	w.txns[tid] = mt
 	st.txnOf[tid] = mt
 	w.stats.Txns++
-	x := &txnCtx{w: w, c: w.primary, mt: mt, checkReads: true, exact: false, thread: tid}
+	x := &txnCtx{w: w, c: w.primary, mt: mt, checkReads: true, exact: false, thread: tid, abort: prog.Abort}
 	err := w.primary.Query(func(txn *column.Txn) error {
 		x.txn = txn
 		for i := range prog.Ops {
@@ -277,6 +280,9 @@ func (w *World) runConcTxn(t *Thread, prog *TxnProg) {
 	switch {
 	case err == nil:
 		w.stats.Commits++
+		if len(mt.Failed) > 0 {
+			w.noteTrigger("fail-in-commit")
+		}
 		for _, b := range mt.Blocks() {
 			if !mt.applied[b] {
 				// the commit path never reached MidCommit1 for a block the transaction changed
@@ -288,7 +294,7 @@ func (w *World) runConcTxn(t *Thread, prog *TxnProg) {
 		// thread-private rows
 		for _, o := range mt.Ops {
 			switch {
-			case o.Kind == mInsert && !mt.Failed[o.Off]:
+			case o.Kind == mInsert && !o.Dead:
 				st.own[tid] = append(st.own[tid], o.Off)
 			case o.Kind == mDelete:
 				for i, v := range st.own[tid] {
@@ -304,6 +310,7 @@ func (w *World) runConcTxn(t *Thread, prog *TxnProg) {
 		}
 	case err == errAbort || err == errStop:
 		w.stats.Aborts++
+		w.noteRollbackInsert(mt)
 		w.model.Abort(mt)
 		if st.or.stream && len(st.emitted[mt]) > 0 {
 			w.fail(violation("stream/emitted-on-rollback", "a rolled-back transaction of thread %d emitted commits", tid))
@@ -351,6 +358,12 @@ func (w *World) concHook(c *column.Collection, latch *smutex.SMutex128, p uint8,
 		}
 	case uint8(column.SimSnapshotPhase):
 		w.stats.probe(fmt.Sprintf("snapshot-phase-%d", arg))
+	case uint8(column.SimBeforeRLock):
+		// a muted hook does not park: the block is read right now
+		if w.sim.cur.role == "snapshot" && w.sim.muted[p] && w.readyFn(c, p, arg) == nil && w.reservedIn(arg) {
+			w.noteTrigger("snapshot-reserved")
+			w.stats.probe("snapshot-reads-block-with-reserved-insert")
+		}
 	}
 }
 
@@ -492,7 +505,7 @@ func (w *World) checkEmitted(mt *MTxn) {
 	st := w.conc
 	changed := map[uint32]bool{}
 	for _, o := range mt.Ops {
-		if o.Kind == mInsert && mt.Failed[o.Off] {
+		if o.Dead {
 			continue
 		}
 		changed[o.Off>>14] = true
